@@ -66,8 +66,9 @@ def classify(c, so, ao):
     if vs == va: return None
     stale = bytes([c['fill']]) * 16
     fd = c['tr'] != 'virtio'
-    def reply_is(v, hdrbytes, with_stale):
-        if fd: return list(v[3]) == ([hdrbytes] + ([stale] if with_stale else []))
+    def reply_is(v, hdrbytes, strict):
+        # strict: exactly one packet; otherwise the stale second write of the (repaired) async_commit defect may follow
+        if fd: return list(v[3]) == [hdrbytes] or (not strict and list(v[3]) == [hdrbytes, stale])
         return v[4] == hdrbytes
     base = {'op': op if op in S.OPS else 'other', 'tr': c['tr']}
     ok_remap = c['remap'] != 'fail'
@@ -81,11 +82,11 @@ def classify(c, so, ao):
                         % (c['cap'], [x.split('(')[0] for x in so['calls'][1:]] or 'no filesystem call', so['res']),
                         dict(base, defect='async-gate-small-capacity', op='any'))
         elif oversize and op in (2, 42):
-            if only_remap and reply_is(va, enomem, fd) and ao['res'] == 'ok:16' and not so['packets'] and not so['mem']:
+            if only_remap and reply_is(va, enomem, False) and ao['res'] == 'ok:16' and not so['packets'] and not so['mem']:
                 return ('oversized %s (len %d) gets an ENOMEM reply on the async path; the sync path sends none (%s)' % (S.OPS[op][0], h['len'], so['res']),
                         dict(base, defect='async-gate-forget-reply'))
         elif op == 16 and not oversize and len(c['req']) >= 80 and struct.unpack_from('<I', c['req'], 56)[0] > MAXBUF:
-            if only_remap and reply_is(va, enomem, fd) and ao['res'] == 'ok:16' and any(x.startswith('write(') for x in so['calls']):
+            if only_remap and reply_is(va, enomem, True) and ao['res'] == 'ok:16' and any(x.startswith('write(') for x in so['calls']):
                 return ('WRITE with size %d > MAX_BUFFER_SIZE is answered ENOMEM by async_write without calling the filesystem; the sync path calls write'
                         % struct.unpack_from('<I', c['req'], 56)[0], dict(base, defect='async-write-size-gate'))
     if fd and c['cap'] >= 16 and vs[:3] == va[:3] and len(vs[3]) == 1 and len(vs[3][0]) == 16 and list(va[3]) == [vs[3][0], stale] \
@@ -119,24 +120,25 @@ def model_vs_impl(tag, cases, obs, mask, broken, sync_every=1):
     if errs: broken.append({'kind': 'correspondence', 'name': 'Coq evaluation of the server models failed', 'log': errs[0]})
     return [tags[j][1] for j in fails if tags[j][0] == 'a'], [tags[j][1] for j in fails if tags[j][0] == 's']
 
-# the witnesses of Proofs/ServerAsyncEquiv.v (C20_refuted_*), byte for byte
+# the witness of Proofs/ServerAsyncEquiv.v (C20_refuted_write_size) and the three former witnesses of the repaired
+# defects (C20_repaired_witnesses_agree), byte for byte
 def hdr_bytes(ln, op, unique, nodeid): return struct.pack('<IIQQ', ln, op, unique, nodeid) + bytes(16)
 def witness_cases():
-    mk = lambda tr, cap, req, fs, fill, defect: {'tr': tr, 'cap': cap, 'req': req, 'fs': fs, 'remap': (0, 0), 'minor': None, 'vu': False, 'wf': None,
-                                                 'fill': fill, 'witness': defect, 'rsegs': [len(req)], 'wsegs': [cap]}
+    mk = lambda tr, cap, req, fs, fill, defect, rep=None: {'tr': tr, 'cap': cap, 'req': req, 'fs': fs, 'remap': (0, 0), 'minor': None, 'vu': False, 'wf': None,
+                                                           'fill': fill, 'witness': defect, 'repaired': rep, 'rsegs': [len(req)], 'wsegs': [cap]}
     return [
-        mk('virtio', 4096, hdr_bytes(MAXBUF + 4097, 2, 7, 1) + struct.pack('<Q', 1), ('unit',), 0, 'async-gate-forget-reply'),
-        mk('virtio', 0, hdr_bytes(48, 2, 7, 1) + struct.pack('<Q', 1), ('unit',), 0, 'async-gate-small-capacity'),
         mk('virtio', 4096, hdr_bytes(80, 16, 7, 1) + struct.pack('<QQIIQII', 3, 0, MAXBUF + 1, 0, 0, 0, 0), ('count', 0), 0, 'async-write-size-gate'),
-        mk('fusedev', 4096, hdr_bytes(56, 3, 7, 1) + bytes(16), ('err', 'os', 2), 165, 'async-commit-unbuffered-rewrite'),
+        mk('virtio', 4096, hdr_bytes(MAXBUF + 4097, 2, 7, 1) + struct.pack('<Q', 1), ('unit',), 0, None, 'async-gate-forget-reply'),
+        mk('virtio', 0, hdr_bytes(48, 2, 7, 1) + struct.pack('<Q', 1), ('unit',), 0, None, 'async-gate-small-capacity'),
+        mk('fusedev', 4096, hdr_bytes(56, 3, 7, 1) + bytes(16), ('err', 'os', 2), 165, None, 'async-commit-unbuffered-rewrite'),
     ]
 
 # ------------------------------------------------------------------ cases
 def gen(rng, n, start=0, targeted='full', witnesses=True):
     cases = S.gen_cases(rng, n, frac_malformed=0.35)
-    # the async handlers get extra weight: half as many cases again are theirs
+    # the async handlers get extra weight: as many cases again are theirs
     extra = []
-    for i in range(n // 2):
+    for i in range(n):
         op = ASYNC_OPS[i % len(ASYNC_OPS)] if i < 2 * len(ASYNC_OPS) else rng.choice(ASYNC_OPS)
         q = S.gen_wf(rng, op)
         if rng.random() < 0.3: extra.append(S.make_case(rng, 0, S.mutate(rng, q), q['fs'], None))
@@ -220,7 +222,7 @@ def run_check(tier, seed):
     if not ok:
         broken.append({'kind': 'harness-build', 'log': out[-3000:]})
         return finish(ev, PROP, findings, broken)
-    n = 130 if tier == 'quick' else 3000
+    n = 100 if tier == 'quick' else 3000
     quick = tier == 'quick'
     rng = random.Random(seed)
     cases = gen(rng, n, targeted='some' if quick else 'full')
@@ -248,21 +250,60 @@ def run_check(tier, seed):
             broken.append({'kind': 'correspondence', 'name': 'Model/Server.v handle vs Server::handle_message', 'case': case_json(c, obs[c['id']])})
         return nb
     nbad = one_round(cases, 'c20')
-    # the Coq witnesses of C20_refuted_* must reproduce on the real handlers, each as its own defect
+    # the Coq witness of C20_refuted_write_size must reproduce on the real handlers as that defect, and the former
+    # witnesses of the repaired defects must agree (C20_repaired_witnesses_agree)
     wit = {}
     for c in cases:
+        got = [f['sig'].get('defect') for f in findings if f.get('input') and f['input']['id'] == c['id']]
         if c.get('witness'):
-            got = [f['sig'].get('defect') for f in findings if f.get('input') and f['input']['id'] == c['id']]
             wit[c['witness']] = got == [c['witness']]
             if got != [c['witness']]:
                 broken.append({'kind': 'correspondence', 'name': 'witness of C20_refuted (%s) does not reproduce on the implementation' % c['witness'],
                                'case': case_json(c, all_obs.get(c['id'])), 'got': got})
+        elif c.get('repaired'):
+            wit['repaired:' + c['repaired']] = got == []
     ev.cov['witness_replays'] = wit
     unknown_before = [f for f in findings if finding_known(f, known_findings(PROP)) is None]
-    if (broken and not unknown_before) and tier == 'quick':
-        # a proof / tie broke without a failing input: search harder before giving up
-        more = gen(random.Random(seed + 1), 3 * n, start=len(cases), witnesses=False)
-        nbad += one_round(more, 'c20x'); cases += more
+    if broken and not unknown_before:
+        # a proof / translator lemma / model tie broke without a failing input: search harder for a concrete request on
+        # which the two real handlers differ (implementation only, no Coq: ~3 ms per case), with extra weight on the
+        # opcodes of the cases where model and code disagree and on the ten async opcodes
+        focus = set()
+        for b in broken:
+            cj = b.get('case') or {}
+            try: focus.add(struct.unpack_from('<I', bytes.fromhex(cj.get('req', '')), 4)[0])
+            except Exception: pass
+        focus = [op for op in focus if op in S.OPS] or list(ASYNC_OPS)
+        r2 = random.Random(seed + 1)
+        more = gen(r2, 1200 if quick else 6000, start=len(cases), targeted='full', witnesses=False)
+        for i in range(1200 if quick else 6000):
+            op = r2.choice(focus) if r2.random() < 0.7 else r2.choice(ASYNC_OPS)
+            q = S.gen_wf(r2, op)
+            c = S.make_case(r2, 0, S.mutate(r2, q), q['fs'], None) if r2.random() < 0.25 else S.make_case(r2, 0, q['bytes'], q['fs'], q)
+            c['fill'] = r2.randrange(256); c['id'] = len(cases) + len(more); more.append(c)
+        rc2, obs2, raw2 = run_impl(more, bindir)
+        all_obs.update(obs2)
+        evaluate(more, obs2, findings, stats, hist, nontriv)
+        cases += more
+        ev.cov['searched_harder'] = {'cases': len(more), 'focus_opcodes': sorted(focus)}
+    # shrink the first new failing request
+    new_f = [f for f in findings if finding_known(f, known_findings(PROP)) is None and f.get('input') and f['sig'].get('defect') != 'crash']
+    if new_f:
+        f0 = new_f[0]; c0 = next((c for c in cases if c['id'] == f0['input']['id']), None)
+        if c0 is not None:
+            def still(c2):
+                c2 = dict(c2); c2.setdefault('fill', c0['fill'])
+                rcx, ox, _ = run_impl([c2], bindir)
+                o = ox.get(c2['id'])
+                if not o or len(o) != 2: return False
+                r = classify(c2, o['sync'], o['async'])
+                return r not in (None, 'inexpressible') and r[1].get('defect') == f0['sig'].get('defect')
+            try:
+                small = S.shrink_req(c0, still)
+                rcx, ox, _ = run_impl([small], bindir)
+                f0['shrunk_input'] = case_json(small, ox.get(small['id']))
+            except Exception as ex:
+                f0['shrink_error'] = str(ex)
     ev.cov['evaluations'] = 2 * sum(1 for c in cases if c['id'] in all_obs)
     ev.cov['distinct_nontrivial'] = len(nontriv)
     ev.cov['model_vs_impl_cases'] = 2 * len(all_obs)
